@@ -59,13 +59,13 @@ pub fn spec_for2(property: &str) -> Option<CheckSpec> {
             CheckSpec {
                 property: "C06".into(),
                 level: "fault_enumeration",
-                profiles: vec![p("crash-kill", 4), p("crash-power", 3), p("crash-sweep-kill", 2), p("crash-sweep-power", 1), p("crash-conc", 2), p("crash-double", 2)],
+                profiles: vec![p("crash-kill", 4), p("crash-power", 3), p("crash-sweep-kill", 2), p("crash-sweep-power", 1), p("crash-conc", 2), p("crash-double", 2), p("crash-power-index", 2)],
                 thorough_extra: vec![],
                 quick_runs: 4_000,
                 thorough_runs: 100_000,
                 quick_budget_s: 90,
                 thorough_budget_s: 600,
-                nontrivial_rule: "three-session runs: a seeded history (rotation, deletes into closed blobs, dumps in flight) is cut by one crash, recovery, writes after recovery, clean restart, more writes, restart with or without index files; validate_data and ignore_corrupted vary per session. Random runs draw the crash event and the partial-write length; crash-double runs have two crashes (a process kill, then a power loss in the recovery session: bytes that survived the kill un-synced are lost by the second crash unless something synced them); crash-conc runs cut a session of concurrent clients (several operations in flight, closures interleaved at I/O-call granularity in half of them); sweep runs re-run the same history once per (mutating I/O event x kept-bytes in {0,1,header,header+meta,len-1,all}) (capped at 160 sites per history in the quick tier). Oracle: init Ok; only blobs with a torn, in-flight or un-synced tail may be quarantined/ignored; every query equals the model over the complete records of attached blobs after recovery and after every later step and restart; a blob that recovery accepted is never rejected by a later start after a clean close (power-loss victims exempt); a blob whose index file is complete in the image that survives a power loss has every byte the index describes; kill model: acknowledged records of a rejected blob are served by a storage opened on recovery_blob's output. Non-trivial = the crash fired and met in-flight, torn or un-synced state; distinct = distinct I/O event signature",
+                nontrivial_rule: "three-session runs: a seeded history (rotation, deletes into closed blobs, dumps in flight) is cut by one crash, recovery, writes after recovery, clean restart, more writes, restart with or without index files; validate_data and ignore_corrupted vary per session. Random runs draw the crash event and the partial-write length; crash-power-index runs lose power while an index file is being written and one of its un-synced writes is lost while later ones survive (a disk does not order un-synced writes: PowerCut.lost_write, also drawn in a quarter of the other power-loss runs); crash-double runs have two crashes (a process kill, then a power loss in the recovery session: bytes that survived the kill un-synced are lost by the second crash unless something synced them); crash-conc runs cut a session of concurrent clients (several operations in flight, closures interleaved at I/O-call granularity in half of them); sweep runs re-run the same history once per (mutating I/O event x kept-bytes in {0,1,header,header+meta,len-1,all}) (capped at 160 sites per history in the quick tier). Oracle: init Ok; only blobs with a torn, in-flight or un-synced tail may be quarantined/ignored; every query equals the model over the complete records of attached blobs after recovery and after every later step and restart; a blob that recovery accepted is never rejected by a later start after a clean close (power-loss victims exempt); a blob whose index file is complete in the image that survives a power loss has every byte the index describes; kill model: acknowledged records of a rejected blob are served by a storage opened on recovery_blob's output. Non-trivial = the crash fired and met in-flight, torn or un-synced state; distinct = distinct I/O event signature",
                 nontrivial: nt_crash,
                 assumptions: a,
                 expected_probes: vec!["session_killed", "blob_quarantined_after_crash", "recovery_tool_run", "power_loss_lost_bytes", "torn_tail"],
